@@ -1,5 +1,5 @@
 use crate::interface::config::GenerateConfig;
-use crate::models::{CommandInfo, StructInfo};
+use crate::models::{CommandInfo, EventInfo, StructInfo};
 use serde::{Deserialize, Serialize};
 use std::collections::HashMap;
 use std::fs;
@@ -32,6 +32,9 @@ pub struct GenerationCache {
     config_hash: String,
     /// Combined hash for quick comparison
     combined_hash: String,
+    /// Hash of all discovered events (empty when the project emits none)
+    #[serde(default)]
+    events_hash: String,
 }
 
 impl GenerationCache {
@@ -54,7 +57,20 @@ impl GenerationCache {
             structs_hash,
             config_hash,
             combined_hash,
+            events_hash: String::new(),
         })
+    }
+
+    /// Fold the discovered events into the cache: event names and payload types are
+    /// rendered into events.ts, so a change to them must defeat the cache as well
+    pub fn with_events(mut self, events: &[EventInfo]) -> Result<Self, CacheError> {
+        if events.is_empty() {
+            return Ok(self);
+        }
+        self.events_hash = Self::hash_events(events)?;
+        self.combined_hash =
+            Self::compute_hash(&format!("{}{}", self.combined_hash, self.events_hash));
+        Ok(self)
     }
 
     /// Load cache from file
@@ -86,6 +102,17 @@ impl GenerationCache {
         structs: &HashMap<String, StructInfo>,
         config: &GenerateConfig,
     ) -> Result<bool, CacheError> {
+        Self::needs_regeneration_with_events(output_dir, commands, structs, &[], config)
+    }
+
+    /// Check if generation is needed, taking the discovered events into account
+    pub fn needs_regeneration_with_events<P: AsRef<Path>>(
+        output_dir: P,
+        commands: &[CommandInfo],
+        structs: &HashMap<String, StructInfo>,
+        events: &[EventInfo],
+        config: &GenerateConfig,
+    ) -> Result<bool, CacheError> {
         // Try to load previous cache
         let previous_cache = match Self::load(&output_dir) {
             Ok(cache) => cache,
@@ -101,7 +128,7 @@ impl GenerationCache {
         }
 
         // Generate current cache
-        let current_cache = Self::new(commands, structs, config)?;
+        let current_cache = Self::new(commands, structs, config)?.with_events(events)?;
 
         // Compare combined hashes
         Ok(previous_cache.combined_hash != current_cache.combined_hash)
@@ -123,6 +150,7 @@ impl GenerationCache {
             return_type: &'a str,
             is_async: bool,
             channels: Vec<ChannelHashData<'a>>,
+            serde_rename_all: Option<String>,
         }
 
         #[derive(Serialize)]
@@ -130,6 +158,7 @@ impl GenerationCache {
             name: &'a str,
             rust_type: &'a str,
             is_optional: bool,
+            serde_rename: Option<&'a str>,
         }
 
         #[derive(Serialize)]
@@ -150,6 +179,7 @@ impl GenerationCache {
                         name: &p.name,
                         rust_type: &p.rust_type,
                         is_optional: p.is_optional,
+                        serde_rename: p.serde_rename.as_deref(),
                     })
                     .collect(),
                 return_type: &cmd.return_type,
@@ -162,6 +192,7 @@ impl GenerationCache {
                         message_type: &c.message_type,
                     })
                     .collect(),
+                serde_rename_all: cmd.serde_rename_all.map(|rule| format!("{:?}", rule)),
             })
             .collect();
 
@@ -177,6 +208,7 @@ impl GenerationCache {
             file_path: &'a str,
             is_enum: bool,
             fields: Vec<FieldHashData<'a>>,
+            serde_rename_all: Option<String>,
         }
 
         #[derive(Serialize)]
@@ -185,6 +217,8 @@ impl GenerationCache {
             rust_type: &'a str,
             is_optional: bool,
             is_public: bool,
+            serde_rename: Option<&'a str>,
+            validator_attributes: Option<&'a crate::models::ValidatorAttributes>,
         }
 
         // Sort by name for deterministic ordering
@@ -205,8 +239,31 @@ impl GenerationCache {
                         rust_type: &f.rust_type,
                         is_optional: f.is_optional,
                         is_public: f.is_public,
+                        serde_rename: f.serde_rename.as_deref(),
+                        validator_attributes: f.validator_attributes.as_ref(),
                     })
                     .collect(),
+                serde_rename_all: s.serde_rename_all.map(|rule| format!("{:?}", rule)),
+            })
+            .collect();
+
+        let json = serde_json::to_string(&hash_data)?;
+        Ok(Self::compute_hash(&json))
+    }
+
+    /// Generate a deterministic hash of events (name and payload type, in discovery order)
+    fn hash_events(events: &[EventInfo]) -> Result<String, CacheError> {
+        #[derive(Serialize)]
+        struct EventHashData<'a> {
+            event_name: &'a str,
+            payload_type: &'a str,
+        }
+
+        let hash_data: Vec<EventHashData> = events
+            .iter()
+            .map(|e| EventHashData {
+                event_name: &e.event_name,
+                payload_type: &e.payload_type,
             })
             .collect();
 
